@@ -63,6 +63,12 @@ Theorem T06_client_authorization_kept : forall om u scheme q msg l ls,
 Proof. exact (client_authorization_kept ob_au_not_hop_by_hop ob_site_auth_checks_all_lines). Qed.
 Print Assumptions T06_client_authorization_kept.
 
+(* Inside an intercepted tunnel the credential lookup uses https (default port 443), whatever
+   scheme the client claims in the request line or in X-Forwarded-Proto. *)
+Theorem T06_mitm_lookup_is_https : forall claimed, mitm_lookup_scheme claimed = b "https".
+Proof. exact (fun claimed => f_equal (fun f : bool => if f then b "https" else claimed) (proj2 ob_mitm_https_before_modifiers)). Qed.
+Print Assumptions T06_mitm_lookup_is_https.
+
 (* Non-vacuity: a table with all four levels, an upstream proxy without userinfo, a client
    sending both kinds of credentials. *)
 Example T06_example :
